@@ -39,3 +39,35 @@ package size
 //@     invariant 0 <= i && i <= n && n == rvLen(v) && sum == sidx(v, i)
 //@   loop 4
 //@     invariant 0 <= i && i <= n && n == rvNumField(v) && sum == sfld(v, i)
+
+// ---- C20, last sentence: the first line of Stat reports the same number ----
+// lines[0] is the header rendered by fmt.Sprintf from the format "%s: %d" (or the average
+// format) with sizeof(v) as its integer operand; the loops never touch lines[0].
+
+//@ func stat returns (lines)
+//@   requires rvValid(v) ==> supported(v)
+//@   ensures len(lines) >= 1 && fresh(lines) && allocated(lines[0])
+//@   ensures rvValid(v) ==> sprintfInt(lines[0], 1) == ssum(v)
+//@   ensures rvValid(v) && opt.AvgOf > 0 ==> sprintfFmt(lines[0]) == "%s: %d /n = %.3f"
+//@   ensures rvValid(v) && opt.AvgOf <= 0 ==> sprintfFmt(lines[0]) == "%s: %d"
+//@   assigns nothing
+//@   loop 1
+//@     invariant 0 <= i && len(keys) == rvLen(v) && len(lines) >= 1 && fresh(lines) && allocated(lines[0])
+//@     invariant forall k int :: 0 <= k && k < len(keys) ==> keys[k] == rvKey(v, k)
+//@     invariant sprintfInt(lines[0], 1) == ssum(v) && sprintfFmt(lines[0]) == sprintfFmt(header)
+//@   loop 2
+//@     invariant 0 <= i && n == rvLen(v) && len(lines) >= 1 && fresh(lines) && allocated(lines[0])
+//@     invariant sprintfInt(lines[0], 1) == ssum(v) && sprintfFmt(lines[0]) == sprintfFmt(header)
+//@   loop 3
+//@     invariant 0 <= i && n == rvNumField(v) && len(lines) >= 1 && fresh(lines) && allocated(lines[0])
+//@     invariant sprintfInt(lines[0], 1) == ssum(v) && sprintfFmt(lines[0]) == sprintfFmt(header)
+//@   loop 4
+//@     invariant -1 <= rangeindex && rangeindex < len(lines) && len(lines) >= 1 && fresh(lines) && allocated(lines[0])
+//@     invariant sprintfInt(lines[0], 1) == ssum(v) && sprintfFmt(lines[0]) == sprintfFmt(header)
+
+//@ func Stat returns (r)
+//@   requires v != nil ==> supported(rvOf(v))
+//@   requires len(opts) > 0 ==> isOpt(opts[0])
+//@   ensures v != nil ==> firstLineInt(r, 1) == ssum(rvOf(v))
+//@   ensures v != nil ==> firstLineFmt(r) == "%s: %d" || firstLineFmt(r) == "%s: %d /n = %.3f"
+//@   assigns nothing
